@@ -283,6 +283,13 @@ def combine1fiber(inloglam, objflux, newloglam, objivar=None, verbose=False,
         if saved_objivar is not None:
             objivar = saved_objivar * (objivar > 0)
         #
+        # Without an input inverse variance every pixel carries unit weight.
+        #
+        if objivar is None:
+            combivar = np.ones(inloglam_r.shape, dtype=inloglam.dtype)
+        else:
+            combivar = objivar.ravel()
+        #
         # Combine inverse variance and pixel masks.
         #
         # Start with all bits set in andmask
@@ -300,7 +307,7 @@ def combine1fiber(inloglam, objflux, newloglam, objivar=None, verbose=False,
                     # on that quantity.
                     #
                     result = np.interp(newloglam[jnbetween], inloglam_r[these],
-                                       (objivar.ravel()[these] *
+                                       (combivar[these] *
                                         fullcombmask[these]))
                     #
                     # Grow the fullcombmask below to reject any new sampling
